@@ -144,3 +144,56 @@ Proof.
     - right. apply orb_true_iff. left. apply Z.ltb_lt. lia. }
   destruct D as [D|D]; [pose proof (T i j Hi Hj D)|pose proof (T j i Hj Hi D)]; lia.
 Qed.
+
+(* ---- the forcing step of SingleAnnotatorWrapper._get_order_preserving_s_query ----
+   the sample the wrapped strategy ranked first in this step is lifted to max + 1 before the ranks are taken: whatever the sign
+   and magnitude of the utilities, it receives the highest rank of the row (= the number of entries) *)
+Lemma fold_max_ub (low : Z) (l : list Z) : forall q, (q < length l)%nat -> nth q l 0 <= fold_right Z.max low l.
+Proof.
+  induction l as [|x t IH]; intros q Hq; cbn in *; [lia|].
+  destruct q; [lia|]. specialize (IH q ltac:(lia)). lia.
+Qed.
+
+Definition bump (low : Z) (filled : list Z) (forced : nat) : list Z :=
+  map (fun iv : nat * Z => if Nat.eqb (fst iv) forced then fold_right Z.max low filled + 1 else snd iv)
+      (combine (seq 0 (length filled)) filled).
+
+Lemma bump_length low filled forced : length (bump low filled forced) = length filled.
+Proof. unfold bump. rewrite map_length, combine_length, seq_length. lia. Qed.
+
+Lemma nth_map_dflt {A B} (f : A -> B) (l : list A) : forall j d d', (j < length l)%nat -> nth j (map f l) d' = f (nth j l d).
+Proof. induction l as [|x t IH]; intros j d d' Hj; cbn in *; [lia|]. destruct j; [reflexivity|]. apply IH. lia. Qed.
+
+Lemma bump_nth low filled forced q : (q < length filled)%nat ->
+  nth q (bump low filled forced) 0 = if Nat.eqb q forced then fold_right Z.max low filled + 1 else nth q filled 0.
+Proof.
+  intros Hq. unfold bump.
+  rewrite (nth_map_dflt _ _ q (O, 0)) by (rewrite combine_length, seq_length; lia).
+  rewrite combine_nth by (rewrite seq_length; reflexivity).
+  rewrite seq_nth by exact Hq. cbn [fst snd Nat.add]. reflexivity.
+Qed.
+
+Theorem forced_sample_gets_top_rank (low : Z) (filled : list Z) (forced : nat) :
+  (forced < length filled)%nat ->
+  nth forced (ordinal_rank (bump low filled forced)) O = length filled.
+Proof.
+  intros Hf. unfold ordinal_rank. rewrite bump_length. rewrite nth_map_seq by exact Hf. unfold rank_at. rewrite bump_length.
+  set (F := filter (fun q => pos_before (bump low filled forced) q forced) (seq 0 (length filled))).
+  assert (HF : forall q, In q F <-> In q (seq 0 (length filled)) /\ q <> forced).
+  { intros q. unfold F. rewrite filter_In. split.
+    - intros [Hs Hb]. split; [exact Hs|]. intros ->. rewrite pos_before_irrefl in Hb. discriminate.
+    - intros [Hs Hne]. split; [exact Hs|]. apply in_seq in Hs. unfold pos_before.
+      rewrite (bump_nth low filled forced q) by lia. rewrite (bump_nth low filled forced forced) by lia.
+      rewrite Nat.eqb_refl. destruct (Nat.eqb q forced) eqn:E; [apply Nat.eqb_eq in E; contradiction|].
+      apply orb_true_iff. left. apply Z.ltb_lt. pose proof (fold_max_ub low filled q ltac:(lia)). lia. }
+  assert (Hlen : S (length F) = length filled).
+  { assert (Hnd : NoDup (forced :: F)).
+    { constructor; [rewrite HF; intros [_ H]; congruence|]. unfold F. apply NoDup_filter, seq_NoDup. }
+    assert (H1 : incl (forced :: F) (seq 0 (length filled))).
+    { intros q [<-|Hq]; [apply in_seq; lia|]. apply HF in Hq. tauto. }
+    assert (H2 : incl (seq 0 (length filled)) (forced :: F)).
+    { intros q Hq. destruct (Nat.eq_dec q forced) as [->|Hne]; [left; reflexivity|right; apply HF; tauto]. }
+    pose proof (NoDup_incl_length Hnd H1) as L1. pose proof (NoDup_incl_length (seq_NoDup (length filled) 0) H2) as L2.
+    rewrite seq_length in *. cbn [length] in *. lia. }
+  exact Hlen.
+Qed.
